@@ -31,6 +31,7 @@ import (
 //   raw s="..." via=pkg|tmpl
 //   toJSON gen=<seed>/<depth> via=pkg|ctx|tmpl|tmpl-json        (value rebuilt from the seed)
 //   toJSON val=<name> via=...                                   (named fixed value)
+//   hist form=pkg|seq|let|letr|if|for n=2 h0=toJSON val0=str3 h1=raw s1="..."   (several calls, see oracle_c20_hist.go)
 // Strings are Go-quoted (strconv.Quote).
 
 var c20Alphabet = []string{"a", "é", "e\u0301", "日", "\xff", "<", "\"", "\\", "\n"}
@@ -415,7 +416,8 @@ func init() {
 	oracles["C20"] = func(cfg Config) []*Report {
 		rep := NewReport("C20", "C20", cfg)
 		rep.Rule = "truncate: every string of <=4 symbols over {a, é, e+U+0301, 日, \\xff, <, \", \\, LF} x size in [-2,8] x every trail of <=3 symbols over {., …, \\xff} by direct call (text.Truncate), strings of <=2 symbols also through a template; default size/trail on long strings; random strings of <=64 symbols from a 32-symbol alphabet (ASCII, 2/3/4-byte, combining, invalid UTF-8, HTML/JS specials) x size in [-2,70] x trails of 0..8 symbols x {both, size only, trail only, no option}; " +
-			"htmlEscape/jsEscape/raw: every string of <=3 symbols over the HTML/JS special characters plus the random strings, by direct call (htmlEscape also with a block), registered helper and template; toJSON: ~130 named values plus values from a recursive generator (nil, bool, ints to the int64 extremes, strings with specials, lists, maps; depth <=3, thorough 4) by direct call, registered helpers toJSON and json, and template. " +
+			"htmlEscape/jsEscape/raw: every string of <=3 symbols over the HTML/JS special characters plus the random strings, by direct call (htmlEscape also with a block), registered helper and template; toJSON: ~130 named values plus values from a recursive generator (nil, bool, ints to the int64 extremes, strings with specials, lists, maps; depth <=3, thorough 4) by direct call, registered helpers toJSON and json, and template; " +
+			"histories: 2..6 helper calls (one helper or mixed, arguments sometimes repeated) whose results are all held and checked by the same laws only after the last call - direct Go calls, top-level sequence, let variables (printed in order and reversed), inside an if block, as the body of a for loop over the arguments; every ordered pair of 18 named JSON values / 10 strings per helper and form, then random. " +
 			"Every case reaches the anchored helper (options are always well typed); distinct by case text; non-trivial = the helper has to change its input (truncation / something to escape / a non-scalar value)"
 		rep.Exhaustive = true
 		rep.Notes = append(rep.Notes,
@@ -424,6 +426,7 @@ func init() {
 			"jsEscape: a character preceded by a backslash counts as escaped; raw U+2028/U+2029 are treated as line breaks",
 			"toJSON: decode-back is checked for valid UTF-8 strings only (a Go string with invalid UTF-8 is not JSON-representable; for those only validity and the absence of raw < > & are checked); floats and structs are not generated; nil slices/maps are not generated",
 			"through a template truncate/jsEscape/htmlEscape results are emitted with raw(...) so that the Render output is the helper's return value (plain <%= %> would HTML-escape it, which is C01's subject)",
+			"histories: a result counts as the value of the call for as long as the caller (a Go variable, a let variable, the collected value of a block) holds it; families .../after-later-call = the direct-call history shows it too, .../only-via-<form> = only the template form does. Arguments containing U+001F (the separator of the template forms) are not generated",
 			"truncate with wrongly typed options (C04) and a nil options map on a direct Go call are not exercised")
 
 		type strRun func(s, via string)
@@ -731,6 +734,8 @@ func init() {
 				runJS(f["s"], f["via"])
 			case "raw":
 				runRaw(f["s"], f["via"])
+			case "hist":
+				c20HistStream(rep, cfg, named)
 			case "toJSON":
 				if g, ok := f["gen"]; ok {
 					v, err := jsonFromSeed(g)
@@ -945,6 +950,9 @@ func init() {
 			via := jsonVias[i%len(jsonVias)]
 			runJSON("toJSON gen="+spec+" via="+via, v, via)
 		}
+
+		// ---- histories of several helper calls: every result is looked at after the last call (oracle_c20_hist.go)
+		c20HistStream(rep, cfg, named)
 		return []*Report{rep}
 	}
 }
